@@ -69,3 +69,22 @@ package eval
 //@   ensures [isolated] all(c, 0, 1, pw2.isolatedPawns[c] == mirrorBB(pw1.isolatedPawns[c^1]))
 //@   ensures [attacks]  all(c, 0, 1, pw2.attacks[c][0] == mirrorBB(pw1.attacks[c^1][0]))
 //@
+//@ # ---- C17 (colour symmetry), cover / occupancy stage: the union of a colour's attack sets and the
+//@ # ---- occupancy computed for the mirror image are the mirror images of the original's
+//@ func (*pieceWise).calcCover
+//@   loop 1: unroll 2
+//@
+//@ scenario coverMirror(pw1 *pieceWise, pw2 *pieceWise)
+//@   props C17
+//@   requires all(c, 0, 1, all(k, 0, 5, pw2.attacks[c][k] == mirrorBB(pw1.attacks[c^1][k])))
+//@   do inline pw1.calcCover()
+//@   do inline pw2.calcCover()
+//@   ensures [cover] all(c, 0, 1, pw2.cover[c] == mirrorBB(pw1.cover[c^1]))
+//@
+//@ scenario occupancyMirror(b1 *Board, b2 *Board, pw1 *pieceWise, pw2 *pieceWise)
+//@   props C17
+//@   requires mirrored(b1, b2)
+//@   do inline pw1.calcOccupancy(b1)
+//@   do inline pw2.calcOccupancy(b2)
+//@   ensures [occ] pw2.occ == mirrorBB(pw1.occ)
+//@
